@@ -1,7 +1,8 @@
 --------------------------- MODULE Trace_HopHostile ---------------------------
 (* Trace validation for C11: probes after hostile frames (witness tube still carries data in  *)
 (* both directions; both muxers stop within the bound) and decoder outcomes (value or error,  *)
-(* allocation bounded by c0 + c1 * bytes received).                                           *)
+(* allocation bounded by c0 + c1 * bytes received), and hostile tube-open sequences against a   *)
+(* real session (the server survives and still admits a regular connection).                  *)
 EXTENDS Integers, Sequences, TLC, Json
 Trace == ndJsonDeserialize("trace.ndjson")
 VARIABLES l, bad
@@ -11,6 +12,7 @@ C1 == 16
 Good(e) == CASE e.ev = "probe"   -> e.witness = "ok"
              [] e.ev = "stop"    -> e.ok = "yes"
              [] e.ev = "decode"  -> e.outcome \in {"value", "error"} /\ e.alloc <= C0 + C1 * e.bytes
+             [] e.ev = "session" -> e.alive = "yes"      \* after a hostile session the server still admits a connection
              [] e.ev = "crash"   -> FALSE
              [] OTHER -> TRUE
 TInit == l = 1 /\ bad = 0
